@@ -37,6 +37,10 @@ def scenarios(rng, P, quick):
     # a file-creating patch whose target already exists (the fault-free run rejects the hunk)
     cs.append(dict(name="create-existing", tree={b"f": ("f", A, 0o644), b"p.diff": ("f", emit.unified_text(gen.make_hunks([], b, 3), b"/dev/null", b"f", b"", b""), 0o644)}, argv=[b"-f", b"-i", b"p.diff"]))
     cs.append(dict(name="reverse-delete-existing", tree={b"f": ("f", A, 0o644), b"p.diff": ("f", emit.unified_text(gen.make_hunks(b, [], 3), b"f", b"/dev/null", b"", b""), 0o644)}, argv=[b"-f", b"-R", b"-i", b"p.diff"]))
+    # a patch for two files on standard input which arrives in two pieces (a slow producer on a pipe): the program sees a short
+    # read, and the read after it is one of the calls that fail - inside one stdio chunk, where fread hands back what it has
+    ug = emit.unified_text(gen.make_hunks(a, b, 2), b"g", b"g")
+    cs.append(dict(name="two-files-stdin-in-pieces", tree={b"f": ("f", A, 0o644), b"g": ("f", A, 0o644)}, argv=[], stdin=u + ug, stdin_chunks=[u, ug]))
     for c in cs:
         c["tree"] = box.Tree(c["tree"])
     return cs if not quick else cs
@@ -64,7 +68,7 @@ def run(R):
         errnos = ["EIO", "ENOSPC", "EACCES"]
         for idx, (call, k, args) in enumerate(calls):
             for e in (errnos if not quick else [errnos[idx % 3]] + ([errnos[(idx + 1) % 3]] if idx % 2 else [])):
-                jobs.append(dict(cut=R.cut, tree=c["tree"], argv=c["argv"], stdin=c.get("stdin", b""), strace={"inject": f"{call}:error={e}:when={k}"}))
+                jobs.append(dict(cut=R.cut, tree=c["tree"], argv=c["argv"], stdin=c.get("stdin", b""), stdin_chunks=c.get("stdin_chunks"), strace={"inject": f"{call}:error={e}:when={k}"}))
                 meta.append((c, r0, f"{call}#{k} {args[:60]}", e))
         dist[c["name"]] = f"{len(calls)} system calls after start-up"
     R.dist["fault schedules"] = dist
